@@ -248,7 +248,14 @@ def key_of(regs, drops=()):
     return tlc.canon_key(regs, list(drops))
 
 
-def run_spec(ctx, progs, bounds, n, label, rule="perthread", timeout=3000, invariants=True):
+def run_spec(ctx, progs, bounds, n, label, rule="perthread", timeout=3000, invariants=True, chunk=300):
+    """one TLC run per chunk of programs: every state carries the schedule sets collected so far, and TLC keeps one
+    live state per program, so memory grows with the number of programs in a run"""
+    if len(progs) > chunk:
+        out = {}
+        for k in range(0, len(progs), chunk):
+            out.update(run_spec(ctx, progs[k:k + chunk], bounds, n, label, rule, timeout, invariants, chunk))
+        return out
     work = os.path.join(ctx.work, label)
     os.makedirs(work, exist_ok=True)
     with open(os.path.join(work, "MCDporRun.tla"), "w") as f:
@@ -258,7 +265,7 @@ def run_spec(ctx, progs, bounds, n, label, rule="perthread", timeout=3000, invar
     with open(cfg, "w") as f:
         f.write(f'SPECIFICATION Spec\nCONSTANTS\n  N = {n}\n  Progs <- RunProgs\n  BoundList <- RunBounds\n  Rule = "{rule}"\n  Emit = TRUE\n'
                 "INVARIANTS NoPanic NoRepeat " + ("Complete Sound Monotone Saturates " if invariants else "") + "Report\nCHECK_DEADLOCK FALSE\n")
-    r = tlc.run_tlc(work, "MCDporRun", cfg, workers=ctx.tlc_workers, timeout=timeout)
+    r = tlc.run_tlc(work, "MCDporRun", cfg, workers=ctx.tlc_workers, timeout=timeout, xmx="10g")
     ctx.add_tlc(r, label)
     if "Model checking completed. No error has been found." not in r["text"]:
         with open(os.path.join(work, "tlc_error.log"), "w") as f:
